@@ -90,6 +90,11 @@ def carried_snapshot(chk, e, m):
     kt = e.extra.get("value", EMPTY).fields.get("#may:key")
     sel = {o for (o, ops) in kt.atoms} if kt is not None else set()
     stray = sorted(o for o in sel if o.startswith("Store(LP_WEIGHT_HISTORY)"))
+    bounded_by_until = kt is not None and any(o in UNTIL and ("bound" in ops or "key" in ops) for (o, ops) in kt.atoms)
+    chk.expect(bounded_by_until, "DEP-carried-snapshot", "Claim: snapshot looked up at the claimed epoch",
+               "the snapshot carried to until_epoch is read from the history with until_epoch as key / range bound",
+               "the value re-written at until_epoch is not read from the history at (or bounded by) until_epoch - selection uses %s: "
+               "it is not the weight in effect at that epoch" % sorted(sel), where(e))
     chk.expect(not stray, "DEP-carried-snapshot", "Claim: snapshot selected by the claimed epoch only",
                "the snapshot carried to until_epoch is selected by (user, lp denom, until_epoch) alone",
                "the snapshot re-written at until_epoch is selected with a bound taken from the history itself (%s): an entry that "
